@@ -710,3 +710,119 @@ class validate_user_fns(Contract):
         fs, fd = cx.run.ghost['vuf']
         return {'asks_whether_model_functions_are_a_subset_of_the_given_ones': fs.asked == [('keys-of', fd)],
                 'answer_is_that_subset_test': result is fs.all_defined}
+
+
+# ----------------------------------------------------------------------------- Checker.match (public enumeration, C11)
+HASRULE = z3.Function('NODE_HAS_RULE_NAME', INT, B)
+
+
+class RuleNames:
+    def __init__(self, node_id):
+        self.node_id = node_id
+
+    def truth(self, it):
+        return HASRULE(zint(self.node_id))
+
+
+class IdText:
+    """str(node_id): only '#_' + str(id) is used"""
+
+    def __init__(self, node_id):
+        self.node_id = node_id
+
+    def rbinop_(self, it, op, left, node):
+        import ast
+        if isinstance(op, ast.Add) and left == '#_':
+            return AnonName(self.node_id)
+        raise Unsupported('text arithmetic on a node id')
+
+
+class AnonName:
+    def __init__(self, node_id):
+        self.node_id = node_id
+
+
+class NodesM:
+    def getitem(self, it, idx, node):
+        return AbsObj('node', dict(rule_name=RuleNames(idx)))
+
+
+@contract
+class context_to_name_summary(Contract):
+    """ASSUMED here: maps tag numbers to pattern names (a dict comprehension over the symbol table)"""
+    fn = ck.Checker._context_to_name
+    assumed = True
+
+    def use_contract_at(c, it, args, kwargs):
+        return isinstance(args[1], CtxTok)
+
+    def result(c, cx, self, context):
+        return ('named-bindings-of', context.a)
+
+
+def _install_match():
+    from pyvc import models
+    old = models.BUILTIN_MODELS[str]
+
+    def m_str(it, args, kwargs, node):
+        if len(args) == 1 and is_sym(args[0]) and 'mm' in it.run.ghost:
+            return IdText(args[0])
+        return old(it, args, kwargs, node)
+    models.BUILTIN_MODELS[str] = m_str
+
+
+_install_match()
+
+
+def _mm_inv(it, env, g):
+    d = it.run.ghost['mm']
+    return {'one_result_per_match_so_far': True}
+
+
+def _mm_havoc(it, env, g):
+    it.run.ghost['mm']['yields'].clear()
+    return env['self']
+
+
+def _mm_step(it, pre, env, g):
+    d = it.run.ghost['mm']
+    ys = d['yields']
+    a = simp(zint(g['i']) - 1)
+    out = {'exactly_one_result_for_this_match': len(ys) == 1}
+    if len(ys) == 1:
+        rn, ctx = ys[0]
+        named = isinstance(rn, RuleNames) and Eq(zint(rn.node_id), PN(a))
+        anon = isinstance(rn, list) and len(rn) == 1 and isinstance(rn[0], AnonName) and Eq(zint(rn[0].node_id), PN(a))
+        out['rule_names_of_the_matched_node_or_its_anonymous_name'] = And(
+            Implies(HASRULE(PN(a)), named is not False and named), Implies(Not(HASRULE(PN(a))), anon is not False and anon)) \
+            if (named is not False or anon is not False) else False
+        out['bindings_of_this_match_by_pattern_name'] = isinstance(ctx, tuple) and ctx[0] == 'named-bindings-of' and Eq(zint(ctx[1]), a)
+    return out
+
+
+@contract
+class match_public(Contract):
+    fn = ck.Checker.match
+    props = ('C11',)
+    doc = ('Checker.match(name), ANY number of matches of the underlying search: the name is normalised and loses a trailing '
+           'implicit-digest component (only that); for every match, in order, exactly one result is produced: the rule names of the '
+           'matched node - or the anonymous name #_<node id> when it has none - and that match\'s bindings by pattern name')
+    raises = {}
+    loops = {1: LoopSpec(_mm_inv, havoc={'self': _mm_havoc}, step=_mm_step)}
+
+    def setup(self, cx):
+        run = cx.run
+        run.ghost['mm'] = dict(yields=[])
+        run.ghost['on_yield'] = lambda it_, v, node: run.ghost['mm']['yields'].append(v)
+        self_ = SymObj(ck.Checker, dict(model=AbsObj('model', dict(nodes=NodesM()))))
+        return dict(self=self_, name=LName(run, 'name'))
+
+    def post(c, cx, result, self, name):
+        calls = cx.run.ghost.get('match_calls', [])
+        digest = And(Not(name.empty), name.last_type == Component.TYPE_IMPLICIT_SHA256)
+        ok = len(calls) == 1 and isinstance(calls[0][1], dict) and calls[0][1] == {}
+        out = {'one_search_from_empty_bindings': ok}
+        if ok:
+            used = calls[0][0]
+            out['name_matched_without_trailing_digest'] = And(Implies(digest, used.stripped_of is name), Implies(Not(digest), used is name))
+        return out
